@@ -26,6 +26,7 @@ struct AnswerDef {                  // a registered answer (C15)
 struct MonConfig {
   uint8_t own; bool readOnly, generateSyn, enhanced, answer;
   std::vector<AnswerDef> answers;
+  int64_t deliveryLag = SYM / 2;     // how long after it was on the wire a symbol may reach the host (grouped delivery: several symbol times)
 };
 
 class TxMonitor {
@@ -90,7 +91,11 @@ class TxMonitor {
       if (e.hostWrote == 0xAA) {
         // AUTO-SYN: only with SYN generation enabled and after silence of at least the generation interval
         autoSyns++;
-        int64_t silence = (e.t - SYM) - (i > 0 ? log[i - 1].t : 0);
+        // what the host could know when it decided: symbols of others that were on the wire less than the delivery lag before its
+        // write had not been handed to it yet (two SYN generators firing at the same moment collide, that is nobody's fault)
+        size_t seen = i;
+        while (seen > 0 && !isHost(seen - 1) && log[seen - 1].t > e.t - SYM - cfg.deliveryLag) seen--;
+        int64_t silence = (e.t - SYM) - (seen > 0 ? log[seen - 1].t : 0);
         // generation interval: 10 ms * master number of the own address + 51 ms until the host has become the generator, 40 ms afterwards
         int64_t need = hostIsGenerator ? 40 * MS : (int64_t)(10 * specMasterNumber(cfg.own) + 51) * MS;
         if (!cfg.generateSyn) add("c03-autosyn-not-enabled", ctx(log, i));
